@@ -19,7 +19,7 @@ def rbytes(rng, n):
 
 
 def gen_key(rng):
-    alphabet = b"abcXYZ019._-: "
+    alphabet = b"abcXYZ019._-: " if rng.random() < 0.8 else b"ab1[]?*\\._-"      # also what a file-name pattern treats specially
     n = rng.randrange(1, 9)
     k = bytes(rng.choice(alphabet) for _ in range(n))
     if k.replace(b":", b"") in (b"", b".", b".."):
@@ -62,7 +62,7 @@ def gen_storage(rng, n, maxops, big):
                 live.pop(f, None)
                 ops.append("D:%s" % k.hex())
             elif r < 0.9:
-                ops.append("L:%s" % rng.choice([b"", b".entity", b"c", b"X"]).hex())
+                ops.append("L:%s" % rng.choice([b"", b".entity", b"c", b"X", b"?", b"*", b"[1]", b"1]", b"\\"]).hex())
             else:
                 ops.append("R")
         for k in keys:
@@ -215,6 +215,21 @@ def concurrent_sets(res, a, pid):
                                                        "required": "two overlapping sets of one key: both must succeed and the key must hold one of the two values in full (observed %s)" % o[:60],
                                                        "failing_input_found": True, "replay": "python3 tools/check.py %s --replay <this file>" % pid}))
     res.obligations.append(("implementation-side runs: overlapping sets of one key", bad == 0, "%d runs, %d failing" % (len(cases), bad)))
+    # ... and a reader while a key is overwritten again and again: every Get returns one of the two values, never not-found
+    cg = [{"id": "cg%d" % i, "line": "hist CG:%s:%s:%s:%d" % (rng.choice([b"k", b"616263.entity"]).hex(), rbytes(rng, 300).hex(), rbytes(rng, 40).hex(), 300 if a.tier == "quick" else 3000)}
+          for i in range(2 if a.tier == "quick" else 8)]
+    obs = core.shard_run(os.path.join(core.BUILD, "hcdrv"), "storage", ["%s %s" % (c["id"], c["line"]) for c in cg])
+    gbad = 0
+    for c in cg:
+        o = obs.get(c["id"], "NO-OUTPUT")
+        res.cases += 1
+        res.count("kind:read-during-overwrite")
+        if o != "cg=ok":
+            gbad += 1
+            res.violations.append(("read-during-overwrite", {"property": pid, "family": "storage", "seed": res.seed, "case": c["line"], "implementation_observed": o[:200],
+                                                             "required": "a Get made while the key is being overwritten returns the previous or the new value, never not-found or anything else (observed %s)" % o[:60],
+                                                             "failing_input_found": True, "replay": "python3 tools/check.py %s --replay <this file>" % pid}))
+    res.obligations.append(("implementation-side runs: reads while a key is overwritten", gbad == 0, "%d runs, %d failing" % (len(cg), gbad)))
 
 
 def run(res, a):
@@ -225,11 +240,11 @@ def run(res, a):
     if a.replay:
         rep = json.load(open(a.replay))
         fam = rep.get("family", "storage")
-        if " CS:" in rep["case"]:
+        if " CS:" in rep["case"] or " CG:" in rep["case"]:
             import os
             o = core.shard_run(os.path.join(core.BUILD, "hcdrv"), "storage", ["replay " + rep["case"]]).get("replay", "NO-OUTPUT")
             res.cases += 1
-            if o != "cs=ok":
+            if o not in ("cs=ok", "cg=ok"):
                 res.violations.append(("concurrent-sets", dict(rep, implementation_observed=o[:200])))
             return
         core.run_correspondence(res, fam, [{"id": "replay", "line": rep["case"], "kind": fam}], __import__(__name__, fromlist=["x"]))
